@@ -131,8 +131,14 @@ def extract(repo=REPO, target_dir=None, quiet=True):
         os.rename(tmp, out)
         write_manifests(repo, out)
         # keep the cache small: drop all but the 320 newest fact dirs (one per seeded change, ~19 MB each)
-        dirs = sorted(glob.glob(os.path.join(BUILD, "facts", "*")), key=os.path.getmtime)
-        for d in dirs[:-320]:
+        # (another extraction, under another target dir's lock, may rename its temporary directory meanwhile)
+        def _mtime(d):
+            try:
+                return os.path.getmtime(d)
+            except OSError:
+                return None
+        dirs = [(m, d) for m, d in ((_mtime(d), d) for d in glob.glob(os.path.join(BUILD, "facts", "*"))) if m is not None and ".tmp" not in os.path.basename(d)]
+        for _m, d in sorted(dirs)[:-320]:
             shutil.rmtree(d, ignore_errors=True)
         return out, {"cached": False, "hash": h, "wall_s": round(time.time() - t0, 2)}
     finally:
